@@ -14,6 +14,7 @@ from vf.oracle import block as B
 
 class C20(object):
     id = 'C20'
+    anchors = ('IterativeMachineGenerator.main', 'IterativeMachineGenerator.GenerateFile', 'IterativeMachineGenerator.GenerateFunction', 'IterativeMachineGenerator.GeneratePackVars', 'BaseSolver.CreateCsvString')
     title = 'Generated stand-alone solver agrees with the in-process solver'
     rule = ('one case = one contraction block (factor <= 0.8; with or without a user-defined time variable, lags, '
             'initial conditions on every simultaneous variable, exogenous lists/tuples/expressions, constants, aliases, '
